@@ -438,22 +438,7 @@ def r4_effects(ctx, reg: dict[str, str]) -> None:
     # guards of the 'only unmodified values' modifiers
     for cn in ("SigmaRegularExpressionModifier", "SigmaCIDRModifier", "SigmaExistsModifier"):
         f = prog.func(f"{M}.{cn}.modify")
-        # modify() interpreted (sa.tabulate, Proxy) on a stand-in value, with and without modifiers applied before
-        from ..tabulate import Proxy as _P4, call_method as _cm4, Raised as _R4
-        from .c06_keys import U as _U4
-
-        class SigmaValueError(Exception):
-            def __init__(self, *a, **k): super().__init__(*a)
-        env4 = {"SigmaValueError": SigmaValueError}
-        IK4 = {"max_steps": 4000, "behaviours": (SigmaValueError,)}
-        outs4 = {}
-        for before in (0, 1, 2):
-            me4 = _P4(prog, f"{M}.{cn}", env4, {"applied_modifiers": [object()] * before, "source": None, "detection_item": _U4("item")}, interp_kwargs=IK4)
-            try:
-                _cm4(prog, f"{M}.{cn}", "modify", me4, env4, _U4("val"), interp_kwargs=IK4)
-                outs4[before] = "accepted"
-            except _R4 as ex:
-                outs4[before] = "refused" if "SigmaValueError" in str(ex) else f"raises {ex}"
+        outs4 = unmodified_guard_outcomes(ctx, cn)
         ok_ = outs4 == {0: "accepted", 1: "refused", 2: "refused"}
         if ok_:
             r.ok("C03.R4", f.qual, "refuses already modified values", f.loc)
@@ -470,9 +455,11 @@ def r4_effects(ctx, reg: dict[str, str]) -> None:
 def r5_only_sigma_errors(ctx) -> None:
     r, prog = ctx.r, ctx.prog
     r.rule("C03.R5", "modifiers raise only Sigma errors: every explicit raise in modify()/apply() is a SigmaError, and no modify() indexes a string that can be empty")
-    for q, f in sorted(prog.funcs.items()):
-        if not (f.module.name == M and f.cls is not None and f.name in ("modify", "apply", "type_check")):
-            continue
+    roots5 = [q for q, f in prog.funcs.items() if f.module.name == M and f.cls is not None and f.name in ("modify", "apply", "type_check")]
+    # … and the helpers of the module they call (a guard may live in a helper)
+    scope5 = sorted(q for q in ctx.cg.reachable(roots5) if q in prog.funcs and prog.funcs[q].module.name == M)
+    for q in scope5:
+        f = prog.funcs[q]
         for node, cls, h in explicit_raises(prog, f):
             if cls is None:
                 continue
@@ -556,6 +543,32 @@ def r6_class_and_original(ctx) -> None:
     r.floor("C03.R6", 8)
 
 
+def unmodified_guard_outcomes(ctx, cn: str) -> dict[int, str]:
+    """modify() of the modifier class ``cn`` interpreted (sa.tabulate, Proxy) on a stand-in value with 0, 1 and 2 modifiers
+    applied before: 'accepted' | 'refused' (SigmaValueError) | 'raises …' each."""
+    from ..tabulate import Proxy as _P4, call_method as _cm4, Raised as _R4
+    from .c06_keys import U as _U4
+    prog = ctx.prog
+    cache = ctx.__dict__.setdefault("_c03_unmodified", {})
+    if cn in cache:
+        return cache[cn]
+
+    class SigmaValueError(Exception):
+        def __init__(self, *a, **k): super().__init__(*a)
+    env4 = {"SigmaValueError": SigmaValueError}
+    IK4 = {"max_steps": 4000, "behaviours": (SigmaValueError,)}
+    outs4 = {}
+    for before in (0, 1, 2):
+        me4 = _P4(prog, f"{M}.{cn}", env4, {"applied_modifiers": [object()] * before, "source": None, "detection_item": _U4("item")}, interp_kwargs=IK4)
+        try:
+            _cm4(prog, f"{M}.{cn}", "modify", me4, env4, _U4("val"), interp_kwargs=IK4)
+            outs4[before] = "accepted"
+        except _R4 as ex:
+            outs4[before] = "refused" if "SigmaValueError" in str(ex) else f"raises {ex}"
+    cache[cn] = outs4
+    return outs4
+
+
 def original_reads(ctx, rid: str) -> None:
     """Reads of SigmaString.original (shared with C05.R8)."""
     r, prog = ctx.r, ctx.prog
@@ -569,7 +582,7 @@ def original_reads(ctx, rid: str) -> None:
                     continue
                 loc = f"{f.module.relpath}:{n.lineno}"
                 gs = atomic_guards(guards_at(prog, f, n))
-                if q == M + ".SigmaRegularExpressionModifier.modify" and ("len(self.applied_modifiers) > 0", False) in gs:
+                if q == M + ".SigmaRegularExpressionModifier.modify" and unmodified_guard_outcomes(ctx, "SigmaRegularExpressionModifier") == {0: "accepted", 1: "refused", 2: "refused"}:
                     r.ok(rid, q, "val.original read only for unmodified values (re must see the raw text)", loc)
                 elif q.endswith("SigmaCasedString.from_sigma_string") or f.name in ("__init__", "from_str", "__repr__"):
                     r.ok(rid, q, f"{unparse(n)} copied/kept, not interpreted", loc)
